@@ -412,6 +412,8 @@ def stepDbg (d : DState) (toks : List String) : Option (DState × String) :=
   match toks with
   | ["dbg", "init", n, exc] =>
     some ({ d with dbgc := { n := n.toNat?.getD 0, exc := exc.toNat?.getD 0 }, dbgf := {} }, "ok")
+  | ["dbg", "init", n, exc, errs] =>
+    some ({ d with dbgc := { n := n.toNat?.getD 0, exc := exc.toNat?.getD 0, errSt := parseList errs }, dbgf := {} }, "ok")
   | ["dbg", "msg", id, clocks, qt, mqt, mtok, flags] =>
     let m : Dbg.Msg :=
       { id := id.toNat?.getD 0, clocks := parseList clocks, qtick := qt.toNat?.getD 0,
